@@ -112,5 +112,5 @@ CHECKS['C20'] = dict(
 ALL = ['C%02d' % i for i in range(1, 21)]
 NA = [dict(property_id=p, reason='check not built yet in this round (planned in DESIGN.md section 3); no claim made')
       for p in ALL if p not in CHECKS]
-NOTES = ('Solver-based checking of the real s3transfer code; see DESIGN.md. Exit 3 of a check = harness error '
-         '(counterexample that does not reproduce concretely), never a violation.')
+NOTES = ('Solver-based checking of the real s3transfer code; see DESIGN.md. A counterexample that does not reproduce concretely '
+         'is a harness error: printed and recorded as such, never a violation (exit 3 only with VERIF_STRICT=1).')
